@@ -77,6 +77,7 @@ class TcpCluster:
         self.n = n
         self.net = sim_net.Net(ed, n, periods=periods)
         self.live = [True] * n
+        self.held = set()         # instances whose main thread is busy: incoming messages wait in their queue
         self.settled = self.pump()
 
     @property
@@ -91,10 +92,10 @@ class TcpCluster:
                 if self.live[k]:
                     net.out_iter(k)
             for k in range(self.n):
-                if self.live[k]:
+                if self.live[k] and k not in self.held:
                     net.main_update(k)
             w1 = sum(1 for m in net.wire if m.get("kind") == "msg")
-            if w1 == w0 and all(not net.queue_notes(k) and net.nodes[k].dist._queue_incoming.empty()
+            if w1 == w0 and all(not net.queue_notes(k) and (k in self.held or net.nodes[k].dist._queue_incoming.empty())
                                 for k in range(self.n) if self.live[k]):
                 return True
         return False
@@ -121,6 +122,14 @@ class TcpCluster:
 
     def wait(self, seconds):
         self.net.advance(seconds)
+        return self.pump()
+
+    def hold(self, k):
+        """the main thread of instance k does not get to run: what arrives waits in its incoming queue"""
+        self.held.add(k)
+
+    def release(self, k=None):
+        self.held -= ({k} if k is not None else set(self.held))
         return self.pump()
 
 
